@@ -123,8 +123,9 @@ def ab_rate(ab):
     return 1.0
 
 # ----------------------------------------------------------------------------- cost models
-def gen_costcurve(rng, minlen=1):
-    costs = [rng.randint(1, 9) for _ in range(rng.randint(3, 8))]
+def gen_costcurve(rng, minlen=1, positive=True):
+    costs = [(rng.randint(1, 9) if positive else rng.choice([0, rng.randint(1, 9), rng.randint(1, 9), rng.randint(1, 9)])) for _ in range(rng.randint(3, 8))]
+    if max(costs) == 0: costs[0] = rng.randint(1, 9)
     k = rng.randint(minlen, 5)
     out = []
     for n in range(1, k + 1):
@@ -132,22 +133,26 @@ def gen_costcurve(rng, minlen=1):
         out.append(max(sum(costs[i:i + n]) for i in range(len(costs) - n + 1)))
     return out
 
-def gen_cm(rng, scalar_only=False):
+def gen_cm(rng, scalar_only=False, positive=True):
     r = rng.random()
     if scalar_only or r < 0.45: return ["scalar", rng.choice([1, rng.randint(1, 5), rng.randint(2, 12)])]
-    if r < 0.65: return ["multiframe", [rng.randint(1, 9) for _ in range(rng.randint(1, 4))]]
-    if r < 0.85: return ["ccurve", ["costs", gen_costcurve(rng)]]
-    return ["cextrap", ["costs", gen_costcurve(rng, 3)]]
+    if r < 0.65:
+        fr = [rng.randint(1, 9) for _ in range(rng.randint(1, 4))]
+        if not positive and rng.random() < 0.25: fr[rng.randrange(len(fr))] = 0           # a legal zero-cost frame
+        if sum(fr) == 0: fr[0] = 1
+        return ["multiframe", fr]
+    if r < 0.85: return ["ccurve", ["costs", gen_costcurve(rng, 1, positive)]]
+    return ["cextrap", ["costs", gen_costcurve(rng, 3, positive)]]
 
 def cm_max(cm):
     if cm[0] == "scalar": return cm[1]
     if cm[0] == "multiframe": return max(cm[1])
     return cm[1][1][0]
 
-def gen_rb(rng, depth=1, scalar_only=False, abkinds=None, realisable=True):
+def gen_rb(rng, depth=1, scalar_only=False, abkinds=None, realisable=True, positive=True):
     if depth > 0 and rng.random() < 0.3:
-        return [rng.choice(["agg", "slice"]), [gen_rb(rng, depth - 1, scalar_only, abkinds, realisable) for _ in range(rng.randint(1, 3))]]
-    rb = ["rbf", gen_ab(rng, 1, abkinds, realisable), gen_cm(rng, scalar_only)]
+        return [rng.choice(["agg", "slice"]), [gen_rb(rng, depth - 1, scalar_only, abkinds, realisable, positive) for _ in range(rng.randint(1, 3))]]
+    rb = ["rbf", gen_ab(rng, 1, abkinds, realisable), gen_cm(rng, scalar_only, positive)]
     return ["boxed", rb] if rng.random() < 0.1 else rb
 
 def rb_util(rb):
